@@ -145,7 +145,11 @@ class Number(Parser):
         stream.take()
         while stream.peek().isdecimal():
             out += stream.take()
-        output.append(int(out))
+        try:
+            output.append(int(out))
+        except ValueError:
+            # more digits than the interpreter converts
+            stream.error('<number>')
 
     def __str__(self):
         return '<number>'
